@@ -269,8 +269,8 @@ RecvErr(ws, cls) ==
   ELSE Bad(ws, {"C10"}, "spurious_error:" \o cls \o (IF "msgone" \in ws.flags THEN ":after_move_then_delete" ELSE ""))
 
 RecvClosed(ws, ch) ==
-  IF ws.phase = "open" THEN Bad(ws, {"C06"}, "channel_closed_without_close")
-  ELSE IF ch = "ev" THEN [ws EXCEPT !.evc = TRUE] ELSE [ws EXCEPT !.errc = TRUE]
+  LET w1 == IF ch = "ev" THEN [ws EXCEPT !.evc = TRUE] ELSE [ws EXCEPT !.errc = TRUE] IN
+  IF ws.phase = "open" THEN Bad(w1, {"C06"}, "channel_closed_without_close") ELSE w1
 
 \* set of possible successor states
 RecvVal(ws, ch, v) ==
